@@ -69,7 +69,7 @@ def generate(rng):
             op.update({"n_paths": rng.choice([2, 3, 5]), "n_times": rng.choice([1, 1, 2]), "torch_seed": rng.seed31()})
         if k == "no_graph":
             op.update({"which": rng.choice(["price", "loss"]), "ambient": rng.choice([None, "enable_grad", "no_grad"]),
-                       "n_paths": rng.choice([2, 3]), "torch_seed": rng.seed31()})
+                       "n_paths": rng.choice([2, 3]), "n_times": rng.choice([1, 2, 3]), "torch_seed": rng.seed31()})
         ops.append(op)
     return {"profile": "c14", "env": {"default_dtype": "float32"}, "world": world, "ops": ops}
 
@@ -291,11 +291,11 @@ def _execute(program, stats, hist):
             try:
                 with _grad_ctx(amb):
                     if op["which"] == "price":
-                        out = h.price(d, hedge=hedge, n_paths=op["n_paths"])
+                        out = h.price(d, hedge=hedge, n_paths=op["n_paths"], n_times=op.get("n_times", 1))
                         site = "price()"
                         stats.probe("no_graph_price")
                     else:
-                        out = h.compute_loss(d, hedge=hedge, n_paths=op["n_paths"], enable_grad=False)
+                        out = h.compute_loss(d, hedge=hedge, n_paths=op["n_paths"], n_times=op.get("n_times", 1), enable_grad=False)
                         site = "compute_loss(enable_grad=False)"
                         stats.probe("no_graph_loss")
             except Exception as e:
